@@ -42,6 +42,7 @@ type BrokerRow struct {
 // FromBlock resets buffer, unmarshal from a new block,
 // make sure that metric and shard id will be overwritten manually
 func (row *BrokerRow) FromBlock(block []byte) {
+	row.IsOutOfTimeRange = false // the row may come from a pooled batch of an earlier request
 	row.buffer = encoding.MustCopy(row.buffer, block)
 	size := flatbuffers.GetSizePrefix(row.buffer, 0)
 	partition := row.buffer[flatbuffers.SizeUOffsetT : flatbuffers.SizeUOffsetT+size]
